@@ -600,6 +600,7 @@ func (r *ChunkReader) resolveSeekPosition() error {
 
 	// Walk the branch nodes until we find the leaf node containing the
 	// seekPosition.
+	cOffset := r.rootNodeCOffset
 	cBias := int64(0)
 	dBias := int64(0)
 	for {
@@ -615,6 +616,7 @@ func (r *ChunkReader) resolveSeekPosition() error {
 		parentCodecHasMixBit := r.currNode.codecHasMixBit()
 		parentVersion := r.currNode.version()
 		parentCOffMax := cBias + r.currNode.cPtrMax()
+		parentDPtrMax := r.currNode.dPtrMax()
 		childCOffset := r.currNode.cOff(i, cBias)
 		childCBias := cBias
 		if sTag := int(r.currNode.sTag(i)); sTag < r.currNode.arity() {
@@ -629,6 +631,15 @@ func (r *ChunkReader) resolveSeekPosition() error {
 			return err
 		}
 
+		// Rule out infinite loops. As per the RAC spec, either the child's
+		// Branch COffset or the child's DPtrMax must be less than the
+		// parent's.
+		if (childCOffset >= cOffset) && (r.currNode.dPtrMax() >= parentDPtrMax) {
+			r.err = errInvalidIndexNode
+			return r.err
+		}
+
+		cOffset = childCOffset
 		cBias = childCBias
 		dBias = childDBias
 	}
